@@ -73,6 +73,26 @@ Theorem subs_free_commutes_doit : forall (A : alg) (r : string -> V A) x v e,
   den r (subs1 x v (doit e)) = den (upd r x (den r v)) e.
 Proof. exact subs_doit_commute. Qed.
 
+(* instance: a symbol FREE at this level and bound in a nested sum is substituted at this level only
+   (PoolSum(j*PoolSum(x*i+j,(j,(1,2))),(i,(3,4))).subs(j,7)), and the result evaluates to the sum read
+   with j := 7; a depth-3 nest whose outer index is used at depth 2 and re-bound at depth 3 evaluates
+   to a PoolSum-free expression that mentions no index *)
+Example subs_free_here_bound_deeper :
+  wf free_here_bound_deeper /\
+  subs1 "j" (Num 7 1) free_here_bound_deeper =
+    PSum (Mul [Num 7 1; PSum (Add [Mul [Sym "x"; Sym "i"]; Sym "j"]) [("j", [Num 1 1; Num 2 1])]])
+         [("i", [Num 3 1; Num 4 1])] /\
+  forall (A : alg) (r : string -> V A),
+    den r (doit (subs1 "j" (Num 7 1) free_here_bound_deeper)) =
+    den (upd r "j" (vnum A 7 1)) free_here_bound_deeper.
+Proof. exact free_here_bound_deeper_ok. Qed.
+
+Example doit_depth3_rebound_index :
+  wf depth3_rebound /\ psum_freeb (doit depth3_rebound) = true /\
+  mem "i" (free_symbols (doit depth3_rebound)) = false /\
+  mem "j" (free_symbols (doit depth3_rebound)) = false.
+Proof. exact depth3_rebound_ok. Qed.
+
 (* cleanup(): value unchanged if every index occurs in the summand ... *)
 Theorem cleanup_preserves_if_used : forall (A : alg) (r : string -> V A) b idx,
   wf (PSum b idx) -> (forall i, In i (names idx) -> In i (free_symbols b)) ->
@@ -144,6 +164,8 @@ Print Assumptions subs_list_bound_noop.
 Print Assumptions xreplace_bound_noop.
 Print Assumptions subs_free_commutes.
 Print Assumptions subs_free_commutes_doit.
+Print Assumptions subs_free_here_bound_deeper.
+Print Assumptions doit_depth3_rebound_index.
 Print Assumptions cleanup_preserves_if_used.
 Print Assumptions cleanup_preserves_unless_unused_nonsingleton.
 Print Assumptions cleanup_changes_value_refuted.
